@@ -9,9 +9,11 @@ SX overlay + VX part.
      in a new session yields objects with equal attribute values that ARE the identity-map objects.
  (c) Composite keys: all pairs of two-part keys with parts of length <= 3 over {'*', ',', 'a'} are
      encoded distinctly by the serialisation bag (checked on the encoder and end to end through
-     serialization.to_dict on a model with a composite string key).
+     serialization.to_dict on a model with a composite string key);
+ (d) pickling of objects with composite primary keys of 2-3 int/str attributes in every declaration order x every
+     order inside PrimaryKey(...), with referrers and query results (same key, same identity-map entry).
 """
-import itertools, json, pickle
+import sys, itertools, json, pickle
 from vf import core
 from vf.engines import sx
 
@@ -211,13 +213,75 @@ def composite_keys(ctx):
                           '%d objects with distinct composite keys give %d entries in to_dict()' % (len(keys), len(d['C'])))
     return len(keys)
 
+def composite_pk_pickling(ctx):
+    """(d) pickling of objects with a composite primary key: 2 and 3 key attributes of types int / str declared in
+    every order relative to the order inside PrimaryKey(...), with a referring entity; every object, a query result
+    and every referrer is pickled in one session and unpickled in another: same key, same identity-map entry as
+    C[key], same attribute values, referrers point to the same object"""
+    import itertools, pickle
+    from pony import orm
+    n = 0
+    for width in (2, 3):
+        names = ['p', 'q', 'r'][:width]
+        for types in itertools.product(('int', 'str'), repeat=width):
+            for decl in itertools.permutations(range(width)):          # declaration order of the key attributes
+                for keyorder in itertools.permutations(range(width)):  # order inside PrimaryKey(...)
+                    if width == 3 and types not in (('int', 'str', 'int'), ('str', 'str', 'int')): continue
+                    db = orm.Database()
+                    body = ['class C(db.Entity):']
+                    for i in decl: body.append('    %s = Required(%s)' % (names[i], types[i]))
+                    body.append('    v = Optional(int)')
+                    body.append('    refs = Set("Ref")')
+                    body.append('    PrimaryKey(%s)' % ', '.join(names[i] for i in keyorder))
+                    body += ['class Ref(db.Entity):', '    id = PrimaryKey(int)', '    c = Required(C)']
+                    import types as _types
+                    modname = 'vf_c31_cpk_%d' % n                      # pickle finds entity classes through their module
+                    mod = _types.ModuleType(modname); sys.modules[modname] = mod
+                    g = mod.__dict__
+                    g.update(db=db, Required=orm.Required, Optional=orm.Optional, Set=orm.Set, PrimaryKey=orm.PrimaryKey)
+                    exec('\n'.join(body), g)
+                    C, Ref = g['C'], g['Ref']
+                    db.bind('sqlite', ':memory:'); db.generate_mapping(create_tables=True)
+                    val = lambda i, k: (k + 1 + 10 * i) if types[i] == 'int' else 'skpq'[k] + names[i]
+                    rows = [dict((names[i], val(i, k)) for i in range(width)) for k in range(3)]
+                    with orm.db_session:
+                        for k, row in enumerate(rows):
+                            c = C(v=k, **row); Ref(id=k + 1, c=c)
+                    with orm.db_session:
+                        objs = list(C.select().order_by(C.v)); refs = list(Ref.select().order_by(Ref.id))
+                        blob = pickle.dumps((objs, refs, C.select().order_by(C.v)[:]))
+                    shape = 'PrimaryKey(%s) declared %s types %s' % (','.join(names[i] for i in keyorder), ','.join(names[i] for i in decl), ','.join(types))
+                    with orm.db_session:
+                        ctx.count('composite_pk_shapes'); n += 1
+                        try: objs2, refs2, res2 = pickle.loads(blob)
+                        except Exception as e:
+                            ctx.violation('composite-pk-pickling|unpickling-raises-%s' % type(e).__name__, dict(shape=shape), '%s: %r' % (shape, e)); continue
+                        bad = None
+                        for k, row in enumerate(rows):
+                            key = tuple(row[names[i]] for i in keyorder)
+                            o = objs2[k]
+                            ctx.count('composite_pk_objects_unpickled')
+                            if o.get_pk() != key: bad = 'key %r became %r' % (key, o.get_pk()); break
+                            if any(getattr(o, m) != row[m] for m in row) or o.v != k: bad = 'attribute values of %r changed' % (key,); break
+                            if C[key] is not o: bad = 'unpickled object is not the identity-map entry C[%r]' % (key,); break
+                            if res2[k] is not o: bad = 'object of the pickled query result is another object'; break
+                            if refs2[k].c is not o: bad = 'referrer points to another object (%r)' % (refs2[k].c,); break
+                        if bad:
+                            order = 'key order = declaration order' if list(decl) == list(keyorder) else 'key order differs from declaration order'
+                            ctx.violation('composite-pk-pickling|%d attributes|%s' % (width, order), dict(shape=shape, problem=bad), '%s: %s' % (shape, bad))
+                    db.disconnect()
+    return n
+
 def run(ctx):
     agg = sx.run_catalogue(ctx, worker, tier='thorough')
     nkeys = composite_keys(ctx)
+    npk = composite_pk_pickling(ctx)
     c = ctx.counters
     ctx.guard('objects serialised', c.get('todict_objects', 0), 500)
     ctx.guard('objects unpickled in a new session', c.get('unpickled_objects', 0), 500)
     ctx.guard('composite keys encoded', c.get('composite_keys_encoded', 0), 1000)
+    ctx.guard('composite primary key shapes pickled', npk, 40)
+    ctx.guard('objects with composite primary keys unpickled', c.get('composite_pk_objects_unpickled', 0), 100)
     ctx.cov['bounds'] = 'states of depth <= %d from both fixtures x every universe object x 12 to_dict option combinations + Bag + to_json; pickling of every object, collection and entity scan; %d composite keys' % (1 if ctx.quick else 2, nkeys)
     ctx.assume('SQLite only')
     return dict(states=agg['states'], transitions=agg['transitions'],
